@@ -611,6 +611,18 @@ func (c *c15) step(st c15Step) error {
 			if wasPaid && served[id] == 0 {
 				c.report("paid-but-not-served:unknown", "an account was debited but no sector operation followed in that RPC", nil)
 			}
+			if st.Cut != "" && (st.Op == "read" || st.Op == "write" || st.Op == "verify") {
+				// the request header itself never arrived whole
+				debitRPCs++
+				c.r.Count("aborted_before_request_complete_"+st.Op, 1)
+				c.r.SetAdd("debit_rpc_abort_points", st.Op+":"+st.Cut+":"+phaseOf(stm))
+				c.r.Distinct("cut:" + st.Op + ":" + st.Cut + ":" + phaseOf(stm))
+				if debited[id] || served[id] > 0 {
+					c.report("debit-before-request-complete:"+st.Op, "an account was debited or a sector touched although the request header had not arrived in full", map[string]any{"cut": st.Cut})
+				} else {
+					unpaidRPCs++
+				}
+			}
 			continue
 		}
 		debitRPCs++
@@ -647,12 +659,6 @@ func (c *c15) step(st c15Step) error {
 			}
 		}
 	}
-	for id := range paid {
-		if served[id] == 0 && c.lab.Mux.Stream(id) == nil {
-			c.report("paid-but-not-served:unknown", "an account was debited but no sector operation followed in that RPC", nil)
-		}
-	}
-
 	// balances after the step equal the ledger
 	post := c.ledgerSnapshot()
 	c.compareLedger(post)
@@ -987,6 +993,67 @@ func (c *c15) runTable() error {
 	return nil
 }
 
+var (
+	c15BodyCuts = []string{"hdr-mid", "hdr-1", "body+0", "body+1", "body-half", "body-1", "close-after-header", "stall-close"}
+	c15HdrCuts  = []string{"hdr-mid", "hdr-1"}
+	c15RespCuts = []string{"resp+0", "resp+1", "resp+20", "resp+300", "resp+700", "resp+1500", "resp+100000"}
+)
+
+// runAborts funds a fresh account with exactly two times the cost of an RPC,
+// kills that RPC at every point before its request is complete (nothing may
+// be debited, stored or delivered), then checks that exactly two more of them
+// succeed and the third fails; afterwards it kills the RPC at every point of
+// the host's answer, where being paid is legitimate iff the operation was
+// carried out.
+func (c *c15) runAborts() error {
+	ops := []c15Step{
+		{Op: "write", Sector: 5, Length: 4096},
+		{Op: "write", Sector: 6, Length: 64},
+		{Op: "read", Sector: 0, Offset: 0, Length: 1024},
+		{Op: "verify", Sector: 2, Offset: 777},
+	}
+	for _, op := range ops {
+		a := len(c.accKeys)
+		c.acct(a)
+		op.Acc = []int{a}
+		cost := c.costOf(op)
+		if err := c.step(c15Step{Op: "fund", Acc: []int{a}, Amounts: []string{hs(cost.Mul64(2))}}); err != nil {
+			return err
+		}
+		cuts := c15HdrCuts
+		if op.Op == "write" {
+			cuts = c15BodyCuts
+		}
+		for _, cut := range cuts {
+			st := op
+			st.Cut = cut
+			if err := c.step(st); err != nil {
+				return err
+			}
+		}
+		for _, tune := range []int{1, 0, -1} {
+			st, t := op, tune
+			st.Tune = &t
+			if err := c.step(st); err != nil {
+				return err
+			}
+		}
+		c.r.Count("funded_count_scenarios", 1)
+		// answer-phase cuts on a well funded account
+		if err := c.step(c15Step{Op: "fund", Acc: []int{a}, Amounts: []string{hs(cost.Mul64(uint64(len(c15RespCuts)) + 1))}}); err != nil {
+			return err
+		}
+		for _, cut := range c15RespCuts {
+			st := op
+			st.Cut = cut
+			if err := c.step(st); err != nil {
+				return err
+			}
+		}
+	}
+	return nil
+}
+
 func (c *c15) runRandom(n int) error {
 	// population: 4 accounts, 3 pools, funded and partly attached
 	a0, p0 := len(c.accKeys), len(c.poolKeys)
@@ -1035,11 +1102,18 @@ func (c *c15) runRandom(n int) error {
 		default:
 			st = c.debitOps()[[]int{0, 0, 2, 3, 1}[c.rng.IntN(5)]]
 			st.Acc = []int{a}
-			if c.rng.IntN(10) == 0 {
+			switch v := c.rng.IntN(20); {
+			case v < 2:
 				st.Bad = c15TokenBad[c.rng.IntN(len(c15TokenBad))]
 				if st.Bad == "unknown-sector" && st.Op == "write" {
 					st.Bad = "token-expired"
 				}
+			case v < 5:
+				all := append(append([]string{}, c15RespCuts...), c15HdrCuts...)
+				if st.Op == "write" {
+					all = append(all, c15BodyCuts...)
+				}
+				st.Cut = all[c.rng.IntN(len(all))]
 			}
 		}
 		if err := c.step(st); err != nil {
@@ -1064,6 +1138,12 @@ func runC15(r *mon.Run, replay string) {
 	r.Floor("attachments", 30)
 	r.Floor("bad_steps_changed_nothing", 40)
 	r.Floor("porcupine_partitions_ok", 4)
+	r.Floor("aborted_before_request_complete_write", 12)
+	r.Floor("aborted_before_request_complete_read", 3)
+	r.Floor("aborted_before_request_complete_verify", 3)
+	r.Floor("aborted_after_request_complete_write", 4)
+	r.Floor("aborted_after_request_complete_read", 4)
+	r.Floor("funded_count_scenarios", 6)
 	var wg sync.WaitGroup
 	workers := r.Pick(4, 10)
 	for w := 0; w < workers; w++ {
@@ -1079,6 +1159,11 @@ func runC15(r *mon.Run, replay string) {
 				defer func() { r.Count("handler_panics_recovered", c.lab.HostPanics()) }()
 				if w < 2 {
 					if err := c.runTable(); err != nil {
+						return err
+					}
+				}
+				if w >= 1 && w < 3 {
+					if err := c.runAborts(); err != nil {
 						return err
 					}
 				}
